@@ -47,17 +47,8 @@ Proof. intros; unfold smul; rewrite in64_true; auto. Qed.
 Lemma sadd_ret a b : - two63 <= a + b < two63 -> sadd a b = Ret (a + b).
 Proof. intros; unfold sadd; rewrite in64_true; auto. Qed.
 
-Lemma mul_small_bound a b : dt_ok a -> small b -> - (DTMAX * ARG) < a * b < DTMAX * ARG.
-Proof.
-  unfold dt_ok, small; intros [Ha1 Ha2] [Hb1 Hb2].
-  assert (0 < DTMAX) by reflexivity. assert (0 < ARG) by reflexivity.
-  destruct (Z_lt_le_dec b 0).
-  - split; [| nia]. assert (a * (- b) <= DTMAX * (- b)) by (apply Z.mul_le_mono_nonneg_r; lia). nia.
-  - split; [nia |]. assert (a * b <= DTMAX * b) by (apply Z.mul_le_mono_nonneg_r; lia). nia.
-Qed.
-
-Lemma consts : DTMAX * ARG = 1152921504606846976 /\ two63 = 9223372036854775808 /\ BMAX = 2305843009213693952
-               /\ two64 = 18446744073709551616 /\ ARG = 1099511627776 /\ DTMAX = 1048576.
+Lemma consts : two63 = 9223372036854775808 /\ BMAX = 4611686018427387904
+               /\ two64 = 18446744073709551616 /\ DTMAX = 2147483647 /\ max_bytes = 4611686018427387903.
 Proof. repeat split. Qed.
 
 (* a <= m / d  <->  a * d <= m *)
@@ -81,58 +72,62 @@ Definition wfm (m : mem) : Prop :=
 
 Ltac consts_in :=
   let K1 := fresh "K" in let K2 := fresh "K" in let K3 := fresh "K" in
-  let K4 := fresh "K" in let K5 := fresh "K" in let K6 := fresh "K" in
-  pose proof consts as (K1 & K2 & K3 & K4 & K5 & K6).
+  let K4 := fresh "K" in let K5 := fresh "K" in
+  pose proof consts as (K1 & K2 & K3 & K4 & K5).
 
-(* the unsigned product of the copies: dtypeSize * ((count == -1) ? length() : count), back in dim_t *)
-Lemma copy_bytes m cnt : wfm m -> small cnt ->
-  toS (umul (mdt m) (if cnt =? -1 then m_len m else toU cnt)) = mdt m * (if cnt =? -1 then m_len m else cnt).
-Proof.
-  intros (Ho & Hs & Hb & Hdt) Hc. unfold m_len.
-  pose proof (mul_small_bound _ _ Hdt Hc) as B2.
-  destruct (div_bounds (msize m) (mdt m)) as (L0 & L1 & L2); [unfold dt_ok in Hdt; lia | lia |].
-  consts_in.
-  destruct (cnt =? -1).
-  - apply toS_umul. lia.
-  - rewrite umul_toU_r. apply toS_umul. lia.
-Qed.
+Lemma toS_toU x : small x -> toS (toU x) = x.
+Proof. intros. unfold toU. rewrite toS_mod. apply toS_id; assumption. Qed.
 
 Lemma leb_mul_pos d c : 1 <= d -> (0 <=? d * c) = (0 <=? c).
 Proof. intros. apply eq_true_iff_eq. rewrite !Z.leb_le. nia. Qed.
 
-(* -1 <= d*c, where c is not the sentinel -1 or is a length *)
-Lemma leb_m1_mul d c : 1 <= d -> c <> -1 -> (-1 <=? d * c) = (0 <=? c).
-Proof. intros. apply eq_true_iff_eq. rewrite !Z.leb_le. nia. Qed.
+(* occa::entriesToBytes accepts exactly the non-negative counts whose product is at most max_bytes *)
+Lemma e2b_char entries dt : 1 <= dt ->
+  entries_to_bytes entries dt =
+  if (0 <=? entries) && (entries * dt <=? max_bytes) then Ret (entries * dt) else Throw.
+Proof.
+  intros Hdt. unfold entries_to_bytes. consts_in.
+  destruct (Z.leb_spec 0 entries); cbn [check bind andb]; [| reflexivity].
+  destruct (Z.leb_spec dt 0); [lia |]. cbn [orb].
+  rewrite le_div_iff by lia.
+  destruct (Z.leb_spec (entries * dt) max_bytes); cbn [check bind]; [| reflexivity].
+  apply smul_ret. nia.
+Qed.
+
+(* the element count of a copy as a dim_t: (count == -1) ? length() : count *)
+Lemma copy_elems m cnt : wfm m -> small cnt ->
+  toS (if cnt =? -1 then m_len m else toU cnt) = (if cnt =? -1 then m_len m else cnt).
+Proof.
+  intros (Ho & Hs & Hb & Hdt) Hc. unfold m_len.
+  destruct (div_bounds (msize m) (mdt m)) as (L0 & L1 & L2); [unfold dt_ok in Hdt; lia | lia |].
+  consts_in. destruct (cnt =? -1); [apply toS_id; lia | apply toS_toU; assumption].
+Qed.
 
 Lemma host_copy_args_char m cnt off : wfm m -> small cnt -> small off ->
-  host_copy_args m cnt off =
+  host_copy_args fixed m cnt off =
   (let c := if cnt =? -1 then m_len m else cnt in
    if (0 <=? off) && (0 <=? c) && ((off + c) * mdt m <=? msize m)
    then Ret (c * mdt m, off * mdt m) else Throw).
 Proof.
   intros Hm Hc Hoff. pose proof Hm as (Ho & Hs & Hb & Hdt).
-  unfold host_copy_args. rewrite (copy_bytes m cnt Hm Hc).
-  pose proof (mul_small_bound _ _ Hdt Hoff) as B1.
-  pose proof (mul_small_bound _ _ Hdt Hc) as B2.
-  unfold m_len in *.
-  destruct (div_bounds (msize m) (mdt m)) as (L0 & L1 & L2); [unfold dt_ok in Hdt; lia | lia |].
-  consts_in. unfold dt_ok, small in *.
-  set (c := if cnt =? -1 then msize m / mdt m else cnt).
-  assert (Hcne : c <> -1).
-  { subst c. destruct (Z.eqb_spec cnt (-1)); lia. }
-  assert (Bc : - (DTMAX * ARG) < mdt m * c < BMAX).
-  { subst c. destruct (Z.eqb_spec cnt (-1)); lia. }
-  rewrite smul_ret by lia. cbn [bind].
-  rewrite leb_m1_mul by lia.
-  rewrite leb_mul_pos by lia.
-  cbv zeta.
-  destruct (Z.leb_spec 0 c) as [C0 | C0]; cbn [check bind]; [| rewrite ?andb_false_r; reflexivity].
-  destruct (Z.leb_spec 0 off) as [O0 | O0]; cbn [check bind andb]; [| reflexivity].
-  rewrite sadd_ret by nia. cbn [bind].
-  rewrite toU_id by nia.
-  replace (mdt m * c + mdt m * off) with ((off + c) * mdt m) by ring.
+  unfold host_copy_args, bytes_of, offset_of. cbn [fixed fx_ovf].
+  rewrite (copy_elems m cnt Hm Hc). cbv zeta.
+  set (c := if cnt =? -1 then m_len m else cnt).
+  consts_in. unfold dt_ok in *.
+  rewrite !e2b_char by lia.
+  destruct (Z.leb_spec 0 c) as [C0 | C0]; cbn [andb bind]; [| rewrite andb_false_r; reflexivity].
+  destruct (Z.leb_spec (c * mdt m) max_bytes) as [C1 | C1]; cbn [bind].
+  2:{ destruct (Z.leb_spec 0 off); cbn [andb]; [| reflexivity].
+      destruct (Z.leb_spec ((off + c) * mdt m) (msize m)); [nia | reflexivity]. }
+  destruct (Z.leb_spec 0 off) as [O0 | O0]; cbn [andb bind]; [| reflexivity].
+  destruct (Z.leb_spec (off * mdt m) max_bytes) as [O1 | O1]; cbn [bind].
+  2:{ destruct (Z.leb_spec ((off + c) * mdt m) (msize m)); [nia | reflexivity]. }
+  destruct (Z.leb_spec (-1) (c * mdt m)); [| nia]. cbn [check bind].
+  destruct (Z.leb_spec 0 (off * mdt m)); [| nia]. cbn [check bind].
+  rewrite sadd_ret by nia. cbn [bind]. rewrite toU_id by nia.
+  replace (c * mdt m + off * mdt m) with ((off + c) * mdt m) by ring.
   destruct (Z.leb_spec ((off + c) * mdt m) (msize m)); cbn [check bind]; [| reflexivity].
-  rewrite !toU_id by nia. f_equal. f_equal; ring.
+  rewrite !toU_id by nia. reflexivity.
 Qed.
 
 Lemma memory_slice_char m off cnt : wfm m -> small off -> small cnt ->
@@ -142,21 +137,26 @@ Lemma memory_slice_char m off cnt : wfm m -> small off -> small cnt ->
    then Ret (Some (mkMem (mbuf m) (moff m + off * mdt m) (c * mdt m) (mdt m))) else Throw).
 Proof.
   intros Hm Hoff Hc. pose proof Hm as (Ho & Hs & Hb & Hdt).
-  unfold memory_slice. cbn [fixed fx_negoff negb orb].
-  pose proof (mul_small_bound _ _ Hdt Hoff) as B1.
-  pose proof (mul_small_bound _ _ Hdt Hc) as B2.
+  unfold memory_slice, bytes_of, offset_of. cbn [fixed fx_negoff fx_ovf negb orb].
   unfold m_len in *.
   destruct (div_bounds (msize m) (mdt m)) as (L0 & L1 & L2); [unfold dt_ok in Hdt; lia | lia |].
   consts_in. unfold dt_ok, small in *.
-  cbv zeta.
+  cbv zeta. rewrite !e2b_char by lia.
   destruct (Z.leb_spec 0 off) as [O0 | O0]; cbn [check bind andb]; [| reflexivity].
-  rewrite smul_ret by lia. cbn [bind].
   set (c := if cnt =? -1 then msize m / mdt m - off else cnt).
-  assert (Eb : toS (umul (mdt m) (if cnt =? -1 then toU (msize m / mdt m - off) else toU cnt)) = mdt m * c).
-  { subst c. destruct (cnt =? -1); rewrite umul_toU_r; apply toS_umul; nia. }
-  rewrite Eb. rewrite leb_mul_pos by lia.
-  destruct (Z.leb_spec 0 c) as [C0 | C0]; cbn [check bind andb]; [| reflexivity].
-  rewrite sadd_ret by lia. cbn [bind].
+  assert (Ee : toS (if cnt =? -1 then toU (msize m / mdt m - off) else toU cnt) = c).
+  { subst c. destruct (cnt =? -1); apply toS_toU; unfold small; lia. }
+  rewrite Ee.
+  destruct (Z.leb_spec (off * mdt m) max_bytes) as [O1 | O1]; cbn [andb bind].
+  2:{ destruct (Z.leb_spec 0 c); cbn [andb]; [| reflexivity].
+      destruct (Z.leb_spec ((off + c) * mdt m) (msize m)); [nia | reflexivity]. }
+  destruct (Z.leb_spec 0 c) as [C0 | C0]; cbn [andb bind]; [| reflexivity].
+  destruct (Z.leb_spec (c * mdt m) max_bytes) as [C1 | C1]; cbn [bind].
+  2:{ destruct (Z.leb_spec ((off + c) * mdt m) (msize m)); [nia | reflexivity]. }
+  destruct (Z.leb_spec 0 (c * mdt m)); [| nia]. cbn [check bind].
+  assert (Bcnt : -1 <= cnt <= max_bytes).
+  { subst c. destruct (Z.eqb_spec cnt (-1)); nia. }
+  rewrite sadd_ret by nia. cbn [bind].
   rewrite toS_id by lia.
   assert (Ec : (off + cnt <=? msize m / mdt m) = ((off + c) * mdt m <=? msize m)).
   { subst c. destruct (Z.eqb_spec cnt (-1)) as [-> | Hne].
@@ -165,9 +165,8 @@ Proof.
   rewrite Ec.
   destruct (Z.leb_spec ((off + c) * mdt m) (msize m)) as [Hr | Hr]; cbn [check bind]; [| reflexivity].
   unfold mm_slice. rewrite sadd_ret by nia. cbn [bind].
-  destruct (Z.leb_spec 0 (moff m + mdt m * off)); [| nia]. cbn [check bind].
-  rewrite toU_id by nia. unfold set_dt. cbn [mbuf moff msize mdt].
-  f_equal. f_equal. f_equal; ring.
+  destruct (Z.leb_spec 0 (moff m + off * mdt m)); [| nia]. cbn [check bind].
+  rewrite toU_id by nia. unfold set_dt. cbn [mbuf moff msize mdt]. reflexivity.
 Qed.
 
 Lemma memory_copyFromM_char m sm cnt doff soff : wfm m -> wfm sm -> small cnt -> small doff -> small soff ->
@@ -177,33 +176,35 @@ Lemma memory_copyFromM_char m sm cnt doff soff : wfm m -> wfm sm -> small cnt ->
    then Ret (PCopy m sm n (doff * mdt m) (soff * mdt sm)) else Throw).
 Proof.
   intros Hm Hsm Hc Hd Hso. pose proof Hm as (Ho & Hs & Hb & Hdt). pose proof Hsm as (Ho' & Hs' & Hb' & Hdt').
-  unfold memory_copyFromM. cbn [fixed fx_other negb orb check bind deref_dt deref_size].
-  rewrite (copy_bytes m cnt Hm Hc).
-  pose proof (mul_small_bound _ _ Hdt Hd) as B1.
-  pose proof (mul_small_bound _ _ Hdt' Hso) as B2.
-  pose proof (mul_small_bound _ _ Hdt Hc) as B3.
-  unfold m_len in *.
-  destruct (div_bounds (msize m) (mdt m)) as (L0 & L1 & L2); [unfold dt_ok in Hdt; lia | lia |].
-  consts_in. unfold dt_ok, small in *.
-  set (c := if cnt =? -1 then msize m / mdt m else cnt).
-  assert (Hcne : c <> -1) by (subst c; destruct (Z.eqb_spec cnt (-1)); lia).
-  assert (Bc : - (DTMAX * ARG) < mdt m * c < BMAX) by (subst c; destruct (Z.eqb_spec cnt (-1)); lia).
-  rewrite !smul_ret by lia. cbn [bind].
-  rewrite leb_m1_mul by lia.
-  cbv zeta. replace (c * mdt m) with (mdt m * c) by ring.
-  rewrite (leb_mul_pos (mdt m) c), (leb_mul_pos (mdt m) doff), (leb_mul_pos (mdt sm) soff) by lia.
-  destruct (Z.leb_spec 0 c) as [C0 | C0]; cbn [check bind andb]; [| reflexivity].
-  destruct (Z.leb_spec 0 doff) as [D0 | D0]; cbn [check bind andb]; [| reflexivity].
-  destruct (Z.leb_spec 0 soff) as [S0 | S0]; cbn [check bind andb]; [| rewrite ?andb_false_r; reflexivity].
+  unfold memory_copyFromM, bytes_of, offset_of. cbn [fixed fx_other fx_ovf negb orb check bind deref_dt deref_size].
+  rewrite (copy_elems m cnt Hm Hc). cbv zeta.
+  set (c := if cnt =? -1 then m_len m else cnt).
+  consts_in. unfold dt_ok in *.
+  rewrite !e2b_char by lia.
+  replace (0 <=? c * mdt m) with (0 <=? c) by (rewrite Z.mul_comm, leb_mul_pos by lia; reflexivity).
+  destruct (Z.leb_spec 0 c) as [C0 | C0]; cbn [andb bind]; [| reflexivity].
+  destruct (Z.leb_spec (c * mdt m) max_bytes) as [C1 | C1]; cbn [bind].
+  2:{ destruct (Z.leb_spec 0 doff); cbn [andb]; [| reflexivity].
+      destruct (Z.leb_spec 0 soff); cbn [andb]; [| reflexivity].
+      destruct (Z.leb_spec (doff * mdt m + c * mdt m) (msize m)); [nia | reflexivity]. }
+  destruct (Z.leb_spec 0 doff) as [D0 | D0]; cbn [andb bind]; [| reflexivity].
+  destruct (Z.leb_spec (doff * mdt m) max_bytes) as [D1 | D1]; cbn [bind].
+  2:{ destruct (Z.leb_spec 0 soff); cbn [andb]; [| reflexivity].
+      destruct (Z.leb_spec (doff * mdt m + c * mdt m) (msize m)); [nia | reflexivity]. }
+  destruct (Z.leb_spec 0 soff) as [S0 | S0]; cbn [andb bind]; [| rewrite ?andb_false_r; reflexivity].
+  destruct (Z.leb_spec (soff * mdt sm) max_bytes) as [S1 | S1]; cbn [bind].
+  2:{ destruct (Z.leb_spec (soff * mdt sm + c * mdt m) (msize sm)); [nia | rewrite ?andb_false_r; reflexivity]. }
+  destruct (Z.leb_spec (-1) (c * mdt m)); [| nia]. cbn [check bind].
+  destruct (Z.leb_spec 0 (doff * mdt m)); [| nia]. cbn [check bind].
+  destruct (Z.leb_spec 0 (soff * mdt sm)); [| nia]. cbn [check bind].
   rewrite sadd_ret by nia. cbn [bind]. rewrite toU_id by nia.
-  replace (mdt m * c + mdt sm * soff) with (soff * mdt sm + mdt m * c) by ring.
-  replace (mdt m * c + mdt m * doff) with (doff * mdt m + mdt m * c) by ring.
-  destruct (Z.leb_spec (soff * mdt sm + mdt m * c) (msize sm)) as [R1 | R1]; cbn [check bind];
+  replace (c * mdt m + soff * mdt sm) with (soff * mdt sm + c * mdt m) by ring.
+  destruct (Z.leb_spec (soff * mdt sm + c * mdt m) (msize sm)) as [R1 | R1]; cbn [check bind];
     [| rewrite ?andb_false_r; reflexivity].
   rewrite sadd_ret by nia. cbn [bind]. rewrite toU_id by nia.
-  replace (mdt m * c + mdt m * doff) with (doff * mdt m + mdt m * c) by ring.
-  destruct (Z.leb_spec (doff * mdt m + mdt m * c) (msize m)) as [R2 | R2]; cbn [check bind andb]; [| reflexivity].
-  rewrite !toU_id by nia. f_equal. f_equal; ring.
+  replace (c * mdt m + doff * mdt m) with (doff * mdt m + c * mdt m) by ring.
+  destruct (Z.leb_spec (doff * mdt m + c * mdt m) (msize m)) as [R2 | R2]; cbn [check bind andb]; [| reflexivity].
+  rewrite !toU_id by nia. reflexivity.
 Qed.
 
 Lemma memory_copyToM_char m dm cnt doff soff : wfm m -> wfm dm -> small cnt -> small doff -> small soff ->
@@ -213,41 +214,55 @@ Lemma memory_copyToM_char m dm cnt doff soff : wfm m -> wfm dm -> small cnt -> s
    then Ret (PCopy dm m n (doff * mdt dm) (soff * mdt m)) else Throw).
 Proof.
   intros Hm Hsm Hc Hd Hso. pose proof Hm as (Ho & Hs & Hb & Hdt). pose proof Hsm as (Ho' & Hs' & Hb' & Hdt').
-  unfold memory_copyToM. cbn [fixed fx_other negb orb check bind deref_dt deref_size].
-  rewrite (copy_bytes m cnt Hm Hc).
-  pose proof (mul_small_bound _ _ Hdt' Hd) as B1.
-  pose proof (mul_small_bound _ _ Hdt Hso) as B2.
-  pose proof (mul_small_bound _ _ Hdt Hc) as B3.
-  unfold m_len in *.
-  destruct (div_bounds (msize m) (mdt m)) as (L0 & L1 & L2); [unfold dt_ok in Hdt; lia | lia |].
-  consts_in. unfold dt_ok, small in *.
-  set (c := if cnt =? -1 then msize m / mdt m else cnt).
-  assert (Hcne : c <> -1) by (subst c; destruct (Z.eqb_spec cnt (-1)); lia).
-  assert (Bc : - (DTMAX * ARG) < mdt m * c < BMAX) by (subst c; destruct (Z.eqb_spec cnt (-1)); lia).
-  rewrite !smul_ret by lia. cbn [bind].
-  rewrite leb_m1_mul by lia.
-  cbv zeta. replace (c * mdt m) with (mdt m * c) by ring.
-  rewrite (leb_mul_pos (mdt m) c), (leb_mul_pos (mdt dm) doff), (leb_mul_pos (mdt m) soff) by lia.
-  destruct (Z.leb_spec 0 c) as [C0 | C0]; cbn [check bind andb]; [| reflexivity].
-  destruct (Z.leb_spec 0 doff) as [D0 | D0]; cbn [check bind andb]; [| reflexivity].
-  destruct (Z.leb_spec 0 soff) as [S0 | S0]; cbn [check bind andb]; [| rewrite ?andb_false_r; reflexivity].
+  unfold memory_copyToM, bytes_of, offset_of. cbn [fixed fx_other fx_ovf negb orb check bind deref_dt deref_size].
+  rewrite (copy_elems m cnt Hm Hc). cbv zeta.
+  set (c := if cnt =? -1 then m_len m else cnt).
+  consts_in. unfold dt_ok in *.
+  rewrite !e2b_char by lia.
+  replace (0 <=? c * mdt m) with (0 <=? c) by (rewrite Z.mul_comm, leb_mul_pos by lia; reflexivity).
+  destruct (Z.leb_spec 0 c) as [C0 | C0]; cbn [andb bind]; [| reflexivity].
+  destruct (Z.leb_spec (c * mdt m) max_bytes) as [C1 | C1]; cbn [bind].
+  2:{ destruct (Z.leb_spec 0 doff); cbn [andb]; [| reflexivity].
+      destruct (Z.leb_spec 0 soff); cbn [andb]; [| reflexivity].
+      destruct (Z.leb_spec (soff * mdt m + c * mdt m) (msize m)); [nia | rewrite ?andb_false_r; reflexivity]. }
+  destruct (Z.leb_spec 0 doff) as [D0 | D0]; cbn [andb bind]; [| reflexivity].
+  destruct (Z.leb_spec (doff * mdt dm) max_bytes) as [D1 | D1]; cbn [bind].
+  2:{ destruct (Z.leb_spec 0 soff); cbn [andb]; [| reflexivity].
+      destruct (Z.leb_spec (doff * mdt dm + c * mdt m) (msize dm)); [nia | reflexivity]. }
+  destruct (Z.leb_spec 0 soff) as [S0 | S0]; cbn [andb bind]; [| rewrite ?andb_false_r; reflexivity].
+  destruct (Z.leb_spec (soff * mdt m) max_bytes) as [S1 | S1]; cbn [bind].
+  2:{ destruct (Z.leb_spec (soff * mdt m + c * mdt m) (msize m)); [nia | rewrite ?andb_false_r; reflexivity]. }
+  destruct (Z.leb_spec (-1) (c * mdt m)); [| nia]. cbn [check bind].
+  destruct (Z.leb_spec 0 (doff * mdt dm)); [| nia]. cbn [check bind].
+  destruct (Z.leb_spec 0 (soff * mdt m)); [| nia]. cbn [check bind].
   rewrite sadd_ret by nia. cbn [bind]. rewrite toU_id by nia.
-  replace (mdt m * c + mdt m * soff) with (soff * mdt m + mdt m * c) by ring.
-  destruct (Z.leb_spec (soff * mdt m + mdt m * c) (msize m)) as [R1 | R1]; cbn [check bind];
+  replace (c * mdt m + soff * mdt m) with (soff * mdt m + c * mdt m) by ring.
+  destruct (Z.leb_spec (soff * mdt m + c * mdt m) (msize m)) as [R1 | R1]; cbn [check bind];
     [| rewrite ?andb_false_r; reflexivity].
   rewrite sadd_ret by nia. cbn [bind]. rewrite toU_id by nia.
-  replace (mdt m * c + mdt dm * doff) with (doff * mdt dm + mdt m * c) by ring.
-  destruct (Z.leb_spec (doff * mdt dm + mdt m * c) (msize dm)) as [R2 | R2]; cbn [check bind andb]; [| reflexivity].
-  rewrite !toU_id by nia. f_equal. f_equal; ring.
+  replace (c * mdt m + doff * mdt dm) with (doff * mdt dm + c * mdt m) by ring.
+  destruct (Z.leb_spec (doff * mdt dm + c * mdt m) (msize dm)) as [R2 | R2]; cbn [check bind andb]; [| reflexivity].
+  rewrite !toU_id by nia. reflexivity.
 Qed.
 
-Lemma device_malloc_bytes_char n dt : dt_ok dt -> - (DTMAX * ARG) < n * dt < BMAX ->
-  device_malloc_bytes n dt = if n =? 0 then Ret None else if n <? 0 then Throw else Ret (Some (n * dt)).
+Lemma e2b_char' n dt : 1 <= dt ->
+  entries_to_bytes n dt = if (n <? 0) || (max_bytes <? n * dt) then Throw else Ret (n * dt).
 Proof.
-  intros Hdt Hb. unfold device_malloc_bytes. consts_in. unfold dt_ok in *.
+  intros. rewrite e2b_char by assumption.
+  destruct (Z.leb_spec 0 n); destruct (Z.ltb_spec n 0); try lia; cbn [andb orb]; try reflexivity.
+  destruct (Z.leb_spec (n * dt) max_bytes); destruct (Z.ltb_spec max_bytes (n * dt)); try lia; reflexivity.
+Qed.
+
+Lemma device_malloc_bytes_char n dt : dt_ok dt ->
+  device_malloc_bytes fixed n dt =
+  if n =? 0 then Ret None else if (n <? 0) || (max_bytes <? n * dt) then Throw else Ret (Some (n * dt)).
+Proof.
+  intros Hdt. unfold device_malloc_bytes. cbn [fixed fx_ovf]. unfold dt_ok in *.
   destruct (Z.eqb_spec n 0); [reflexivity |].
-  rewrite smul_ret by lia. cbn [bind].
-  destruct (Z.ltb_spec n 0); destruct (Z.leb_spec 0 (n * dt)); cbn [check bind]; try reflexivity; nia.
+  rewrite e2b_char' by lia.
+  destruct ((n <? 0) || (max_bytes <? n * dt)) eqn:E; cbn [bind]; [reflexivity |].
+  apply orb_false_iff in E as [E1 E2]. apply Z.ltb_ge in E1, E2.
+  destruct (Z.leb_spec 0 (n * dt)); [reflexivity | nia].
 Qed.
 
 Lemma memory_cast_char m dt : wfm m ->
@@ -262,26 +277,28 @@ Proof.
   replace (msize m / mdt m - 0) with (msize m / mdt m) by ring.
   destruct (Z.leb_spec 0 (msize m / mdt m)); [| lia].
   destruct (Z.leb_spec (msize m / mdt m * mdt m) (msize m)); [| lia].
-  cbn [Z.leb andb bind set_dtype set_dt mbuf moff msize mdt]. 
+  cbn [Z.leb andb bind set_dtype set_dt mbuf moff msize mdt].
   replace (moff m + 0 * mdt m) with (moff m) by ring. reflexivity.
 Qed.
 
-Lemma device_mallocM_char b n dt src fdt : dt_ok dt -> - (DTMAX * ARG) < n * dt < BMAX ->
+Lemma device_mallocM_char b n dt src fdt : dt_ok dt ->
   (forall sm, src = Some sm -> wfm sm) ->
   device_mallocM fixed b n dt src fdt =
-  if n =? 0 then Ret (PSetHandle None) else if n <? 0 then Throw else
+  if n =? 0 then Ret (PSetHandle None) else if (n <? 0) || (max_bytes <? n * dt) then Throw else
   match src with
   | None => Ret (PAlloc (n * dt) fdt false INone)
   | Some sm => if n * dt <=? msize sm then Ret (PAlloc (n * dt) fdt false (IMem sm (n * dt) 0 0)) else Throw
   end.
 Proof.
-  intros Hdt Hb Hsrc. unfold device_mallocM. rewrite device_malloc_bytes_char by assumption.
+  intros Hdt Hsrc. unfold device_mallocM. rewrite device_malloc_bytes_char by assumption.
   destruct (Z.eqb_spec n 0); [reflexivity |].
-  destruct (Z.ltb_spec n 0); [reflexivity |]. cbn [bind].
+  destruct ((n <? 0) || (max_bytes <? n * dt)) eqn:E; [reflexivity |]. cbn [bind].
+  apply orb_false_iff in E as [E1 E2]. apply Z.ltb_ge in E1, E2.
   destruct src as [sm |]; [| reflexivity]. cbn [fixed fx_src].
+  consts_in.
   assert (Hf : wfm (mkMem b 0 (n * dt) dt)).
   { unfold wfm; cbn. unfold dt_ok in *. nia. }
-  rewrite memory_copyFromM_char; auto; try (unfold small; consts_in; lia).
+  rewrite memory_copyFromM_char; auto; try (unfold small; lia).
   cbv zeta. change (-1 =? -1) with true. cbv iota.
   unfold m_len. cbn [msize mdt]. rewrite Z_div_mult by (unfold dt_ok in Hdt; lia).
   unfold dt_ok in *.
@@ -300,14 +317,19 @@ Proof.
   intros Hm. pose proof Hm as (Ho & Hs & Hb & Hdt). unfold memory_clone.
   rewrite device_mallocM_char; try (unfold dt_ok; consts_in; lia).
   - rewrite Z.mul_1_r. destruct (Z.eqb_spec (msize m) 0); [reflexivity |].
-    destruct (Z.ltb_spec (msize m) 0); [lia |]. rewrite Z.leb_refl. reflexivity.
+    consts_in.
+    destruct (Z.ltb_spec (msize m) 0); [lia |]. destruct (Z.ltb_spec max_bytes (msize m)); [lia |].
+    cbn [orb]. rewrite Z.leb_refl. reflexivity.
   - intros sm E; inversion E; subst; assumption.
 Qed.
 
-Lemma device_wrap_char n dt seed : dt_ok dt -> small n ->
-  device_wrap n dt seed = if n <? 0 then Throw else Ret (PAlloc (n * dt) dt true (IHost seed)).
+Lemma device_wrap_char n dt seed : dt_ok dt ->
+  device_wrap fixed n dt seed =
+  if (n <? 0) || (max_bytes <? n * dt) then Throw else Ret (PAlloc (n * dt) dt true (IHost seed)).
 Proof.
-  intros Hdt Hn. unfold device_wrap. pose proof (mul_small_bound _ _ Hdt Hn) as B. consts_in.
-  unfold dt_ok, small in *. rewrite smul_ret by nia. cbn [bind].
-  destruct (Z.ltb_spec n 0); destruct (Z.leb_spec 0 (n * dt)); cbn [check bind]; try reflexivity; nia.
+  intros Hdt. unfold device_wrap. cbn [fixed fx_ovf]. unfold dt_ok in *.
+  rewrite e2b_char' by lia.
+  destruct ((n <? 0) || (max_bytes <? n * dt)) eqn:E; cbn [bind]; [reflexivity |].
+  apply orb_false_iff in E as [E1 E2]. apply Z.ltb_ge in E1, E2.
+  destruct (Z.leb_spec 0 (n * dt)); [reflexivity | nia].
 Qed.
